@@ -214,6 +214,9 @@ func init() {
 					return p.Header.PayloadUnitStartIndicator
 				case "af":
 					return p.Header.HasAdaptationField
+				case "afContent":
+					a := p.AdaptationField
+					return a != nil && (a.HasPCR || a.RandomAccessIndicator || a.StuffingLength > 0)
 				case "script":
 					i := idx
 					idx++
@@ -258,6 +261,7 @@ func init() {
 		var datas []*astits.DemuxerData
 		var tablepos []string
 		errors, ending := 0, "other"
+		afterEOF := 0
 		for _, call := range calls {
 			switch call {
 			case "next":
@@ -302,6 +306,9 @@ func init() {
 						ending = "other"
 					}
 				default:
+					if ending == "eof" {
+						afterEOF++ // something was delivered after ErrNoMorePackets had been returned
+					}
 					s := canon(v)
 					kept = append(kept, v)
 					keptStr = append(keptStr, s)
@@ -310,6 +317,7 @@ func init() {
 					ending = "other"
 				}
 			case "rewind":
+				ending = "other"
 				n, err := dmx.Rewind()
 				if err != nil {
 					seq = append(seq, "rewind:err@"+pos())
@@ -325,6 +333,19 @@ func init() {
 			}
 		}
 		switch view {
+		case "items":
+			// seq entries without the reader position, up to and including the first end of stream
+			var items []string
+			for _, e := range seq {
+				if i := strings.LastIndex(e, "@"); i >= 0 && e != "poison" {
+					e = e[:i]
+				}
+				items = append(items, e)
+				if e == "err:eof" {
+					break
+				}
+			}
+			return strings.Join(items, "|")
 		case "outcomes":
 			return strings.Join(outcomes, ",")
 		case "tablepos":
@@ -353,10 +374,15 @@ func init() {
 			for _, p := range pids {
 				parts = append(parts, fmt.Sprintf("pid=%d:[%s]", p, strings.Join(byPid[uint16(p)], ",")))
 			}
-			if c.boolean("noErr") {
-				return strings.Join(parts, ";")
+			late := ""
+			if afterEOF > 0 {
+				// a caller that stops at ErrNoMorePackets would never have seen these
+				late = fmt.Sprintf(";delivered-after-eof=%d", afterEOF)
 			}
-			return strings.Join(parts, ";") + fmt.Sprintf(";errors=%d;end=%s", errors, ending)
+			if c.boolean("noErr") {
+				return strings.Join(parts, ";") + late
+			}
+			return strings.Join(parts, ";") + fmt.Sprintf(";errors=%d;end=%s", errors, ending) + late
 		}
 		stable := true
 		for i, v := range kept {
